@@ -343,60 +343,6 @@ theorem Attrs.remove_absent (c : Attrs) (n : Text) (h : ∀ p ∈ c, p.1 ≠ n) 
     have := h b (by simpa using hb)
     simpa using this
 
-/-! ### scopes -/
-
-/-- the permanent additions made by a history -/
-def globalsOf : List Ev → Attrs
-  | [] => []
-  | .global n v :: es => (n, v) :: globalsOf es
-  | _ :: es => globalsOf es
-
-/-- Well-bracketed histories: scopes are properly nested; permanent additions may happen anywhere as
-    long as their name is not that of a scope that is open (within the history) at that moment. -/
-inductive Nested : List Ev → Prop where
-  | nil : Nested []
-  | global (n v : Text) : Nested [.global n v]
-  | scope (n v : Text) (es : List Ev) (h : Nested es) (fresh : ∀ p ∈ globalsOf es, p.1 ≠ n) :
-      Nested (.push n v :: es ++ [.pop])
-  | cat (a b : List Ev) (ha : Nested a) (hb : Nested b) : Nested (a ++ b)
-
-theorem globalsOf_append (a b : List Ev) : globalsOf (a ++ b) = globalsOf a ++ globalsOf b := by
-  induction a with
-  | nil => rfl
-  | cons e es ih => cases e <;> simp [globalsOf, ih]
-
-theorem Scopes.run_append (s : Scopes) (a b : List Ev) :
-    s.run (a ++ b) = match s.run a with | some s' => s'.run b | none => none := by
-  induction a generalizing s with
-  | nil => simp [Scopes.run]
-  | cons e es ih =>
-    simp only [List.cons_append, Scopes.run]
-    cases s.step e with
-    | none => rfl
-    | some s' => exact ih s'
-
-theorem Scopes.run_nested (es : List Ev) (h : Nested es) :
-    ∀ s : Scopes, s.run es = some { glob := s.glob ++ globalsOf es, live := s.live } := by
-  induction h with
-  | nil => intro s; simp [Scopes.run, globalsOf]
-  | global n v => intro s; simp [Scopes.run, Scopes.step, globalsOf, Attrs.add]
-  | scope n v es _ fresh ih =>
-    intro s
-    have h1 : s.run (.push n v :: es ++ [.pop]) =
-        (({ glob := s.glob.add n v, live := n :: s.live } : Scopes).run (es ++ [.pop])) := by
-      simp [Scopes.run, Scopes.step]
-    rw [h1, Scopes.run_append, ih]
-    simp only [Scopes.run, Scopes.step]
-    have : Attrs.remove (s.glob.add n v ++ globalsOf es) n = s.glob ++ globalsOf es := by
-      have := Attrs.remove_last s.glob (globalsOf es) n v fresh
-      simpa [Attrs.add] using this
-    rw [this]
-    simp [globalsOf_append, globalsOf]
-  | cat a b _ _ iha ihb =>
-    intro s
-    rw [Scopes.run_append, iha]
-    simp [ihb, globalsOf_append]
-
 /-! ### file name -/
 
 theorem baseName_of_split (dir base : Text) (h : ∀ b ∈ base, b ≠ 47) :
